@@ -129,6 +129,9 @@ void simio_ambient(int64_t offset_s, int64_t step_s, int r_on, uint64_t r_seed) 
     rand_on = r_on; rand_state = r_seed | 1;
 }
 
+/* in-process (E1): the schedule moves the clock between two calls */
+void simio_clock_advance(int64_t seconds) { init(); clock_offset += seconds; }
+
 static void spend(void) {
     calls++;
     if (budget >= 0 && calls > budget) {
